@@ -12,9 +12,11 @@ import (
 	"fmt"
 	"io"
 	"net/http"
+	"runtime"
 	"strconv"
 	"strings"
 	"sync"
+	"sync/atomic"
 	"testing"
 	"time"
 
@@ -26,7 +28,14 @@ import (
 	"verif/harness/memnet"
 )
 
-const c07pCheck = "c07-paused-poll"
+// The same check decides C02's clause "events of one emitter arrive in order, frames of a packet contiguous" for the one situation C02's own
+// rigs do not produce - a transport upgrade with a backlog on the polling transport. Run with VERIF_AS=C02 it reports under that property.
+var c07pProp, c07pCheck = func() (string, string) {
+	if envStr("VERIF_AS", "") == "C02" {
+		return "C02", "c02-order-across-upgrade"
+	}
+	return "C07", "c07-paused-poll"
+}()
 
 type c07pCase struct {
 	PauseMs   int  `json:"pause_ms"`   // time without a poll request before the WebSocket is dialed (> 1000: the heartbeat PING is part of the backlog)
@@ -34,6 +43,9 @@ type c07pCase struct {
 	Pairs     int  `json:"pairs"`      // number of pairs
 	Senders   int  `json:"senders"`    // server goroutines, each with its own sequence
 	FirstPoll bool `json:"first_poll"` // one poll request is made and answered before the pause
+	// forced schedule: one more sender puts 50 pairs into the backlog, waits for the yield point right before the server swaps the transports,
+	// and sends 200 more pairs back to back from there, i.e. while the swap and the hand-over of the backlog are going on
+	SwapSender bool `json:"swap_sender"`
 }
 
 func evalC07p(c c07pCase) (f *Failure, nontrivial bool) {
@@ -42,11 +54,15 @@ func evalC07p(c c07pCase) (f *Failure, nontrivial bool) {
 		class = "backlog+ping"
 	}
 	fail := func(clause, detail string) *Failure {
-		return &Failure{Property: "C07", Check: c07pCheck, Clause: clause, Class: class, Detail: detail, Case: c}
+		return &Failure{Property: c07pProp, Check: c07pCheck, Clause: clause, Class: class, Detail: detail, Case: c}
 	}
 	journal(c07pCheck, class, c)
 	var res *Failure
+	var swapGo chan struct{}
+	var swapOnce sync.Once
+	var swapSending atomic.Bool
 	body := func() {
+		swapGo = make(chan struct{}) // (made inside the bubble: the sender that waits on it lives there)
 		var mu sync.Mutex
 		net := memnet.New()
 		var srv eio.ServerSocket
@@ -133,6 +149,27 @@ func evalC07p(c c07pCase) (f *Failure, nontrivial bool) {
 				}
 			}()
 		}
+		if c.SwapSender {
+			wg.Add(1)
+			go func() {
+				defer wg.Done()
+				g := c.Senders
+				send := func(i int) {
+					h, _ := parser.NewPacket(parser.PacketTypeMessage, false, []byte(fmt.Sprintf("h-%d-%d", g, i)))
+					a, _ := parser.NewPacket(parser.PacketTypeMessage, false, []byte(fmt.Sprintf("a-%d-%d", g, i)))
+					s.Send(h, a)
+				}
+				for i := 0; i < 50; i++ {
+					send(i)
+				}
+				<-swapGo
+				swapSending.Store(true)
+				for i := 50; i < 250; i++ {
+					send(i)
+					runtime.Gosched()
+				}
+			}()
+		}
 		if c.FirstPoll {
 			time.Sleep(time.Millisecond)
 			pollOnce()
@@ -189,7 +226,14 @@ func evalC07p(c c07pCase) (f *Failure, nontrivial bool) {
 		}
 		// exactly once and per sender in order: h-g-0 a-g-0 h-g-1 a-g-1 ... (with ONE sender that is the whole stream, so the two packets of a Send
 		// call are adjacent; concurrent Send calls of several goroutines may interleave packet by packet - the API does not promise otherwise)
-		next := make([]int, c.Senders) // per sender: 2*k for h-g-k, 2*k+1 for a-g-k
+		senders, pairs := c.Senders, make([]int, c.Senders, c.Senders+1)
+		for g := range pairs {
+			pairs[g] = c.Pairs
+		}
+		if c.SwapSender {
+			senders, pairs = senders+1, append(pairs, 250)
+		}
+		next := make([]int, senders) // per sender: 2*k for h-g-k, 2*k+1 for a-g-k
 		for i, m := range received {
 			parts := strings.Split(m, "-")
 			if len(parts) != 3 || (parts[0] != "h" && parts[0] != "a") {
@@ -202,7 +246,7 @@ func evalC07p(c c07pCase) (f *Failure, nontrivial bool) {
 			if parts[0] == "a" {
 				pos++
 			}
-			if g < 0 || g >= c.Senders {
+			if g < 0 || g >= senders {
 				res = fail("order-across-the-swap", fmt.Sprintf("message %q of an unknown sender", m))
 				return
 			}
@@ -220,8 +264,8 @@ func evalC07p(c c07pCase) (f *Failure, nontrivial bool) {
 			next[g] /= 2
 		}
 		for g := range next {
-			if next[g] != c.Pairs {
-				res = fail("nothing-lost", fmt.Sprintf("sender %d: %d of %d Send calls arrived", g, next[g], c.Pairs))
+			if next[g] != pairs[g] {
+				res = fail("nothing-lost", fmt.Sprintf("sender %d: %d of %d Send calls arrived", g, next[g], pairs[g]))
 				return
 			}
 		}
@@ -230,7 +274,16 @@ func evalC07p(c c07pCase) (f *Failure, nontrivial bool) {
 		}
 	}
 	var msg string
-	withHooks(hookSet{}, func() { msg = inBubble(curT, body) })
+	withHooks(hookSet{point: func(site string) {
+		if site == "eio.serverSocket.upgradeTo:before-swap" && c.SwapSender {
+			swapOnce.Do(func() {
+				close(swapGo)
+				for i := 0; i < 20000 && !swapSending.Load(); i++ {
+					runtime.Gosched()
+				}
+			})
+		}
+	}}, func() { msg = inBubble(curT, body) })
 	if res == nil && msg != "" && !isBubbleDeadlock(msg) {
 		res = fail("bubble-panic", "synctest: "+msg)
 	}
@@ -240,14 +293,14 @@ func evalC07p(c c07pCase) (f *Failure, nontrivial bool) {
 func TestC07_PausedPoll(t *testing.T) {
 	setT(t)
 	defer startWatchdog(t, 90*time.Second)()
-	ev := NewEv(t, "C07", c07pCheck, "rapid on the virtual-time network: a hand-written Engine.IO client opens over long-polling, optionally polls once, then stops polling for 0..1900 ms while 1..3 server goroutines "+
+	ev := NewEv(t, c07pProp, c07pCheck, "rapid on the virtual-time network: a hand-written Engine.IO client opens over long-polling, optionally polls once, then stops polling for 0..1900 ms while 1..3 server goroutines "+
 		"keep sending pairs of messages (one Send call each, every 20..5000 us, 10..3000 pairs) - so a backlog and, beyond 1 s, the heartbeat PING (pingInterval = pingTimeout = 1 s) wait in the poll queue - and then "+
 		"upgrades to WebSocket by hand (probe, answer, UPGRADE) and answers every PING; oracle: the server never closes the session, >= 3 PINGs arrive in 6 s, every message arrives exactly once, per sender in "+
 		"order across the swap (with one sender that keeps the two packets of a Send call adjacent); non-trivial = the PING was in the backlog, or > 200 Send calls")
-	rapidGuard(t, "C07", c07pCheck)
+	rapidGuard(t, c07pProp, c07pCheck)
 	runRapid(t, c07pCheck, tierN(3000, 40000), func(t *rapid.T) {
 		c := c07pCase{PauseMs: rapid.SampledFrom([]int{0, 5, 300, 1100, 1500, 1900}).Draw(t, "pause"), GapUs: rapid.SampledFrom([]int{20, 200, 5000}).Draw(t, "gap"),
-			Senders: rapid.IntRange(1, 3).Draw(t, "senders"), FirstPoll: rapid.Bool().Draw(t, "firstPoll")}
+			Senders: rapid.IntRange(1, 3).Draw(t, "senders"), FirstPoll: rapid.Bool().Draw(t, "firstPoll"), SwapSender: rapid.Bool().Draw(t, "swapSender")}
 		c.Pairs = rapid.SampledFrom([]int{10, 100, 1000, 3000}).Draw(t, "pairs")
 		f, nt := evalC07p(c)
 		ev.Case(c, nt, fmt.Sprintf("pause=%d", c.PauseMs))
